@@ -25,11 +25,11 @@ type T struct {
 
 // Decls are the prelude `decl` lines (named types, in index order).
 var Decls = []string{
-	"decl - int",             // 0 NI
-	"decl - string",          // 1 NS
+	"decl - int",               // 0 NI
+	"decl - string",            // 1 NS
 	"decl m00 (st int string)", // 2 St
-	"decl - (sl int)",        // 3 NSl
-	"decl - bool",            // 4 NB
+	"decl - (sl int)",          // 3 NSl
+	"decl - bool",              // 4 NB
 }
 
 var Types = []T{
